@@ -184,6 +184,44 @@ def run(ctx):
             ctx.ob("C05.B5.handler-performs-its-operation", "%s%s|auto_escape_stack" % (tag, v), n == 1 and len(stores) == 1,
                    "%s: %d stack operations, %d writes of state.auto_escape" % (v, n, len(stores)), ev.loc)
 
+        # ---- B6: operands around the computed jump of a recursive loop.  PopLoopFrame returns a recursive loop
+        # invocation to its call site (`pc = target` from LoopState::current_recursion_jump); whatever the code
+        # generator emits at the loop end before PopLoopFrame runs for recursive invocations too, and nothing at the
+        # call site consumes what it pushes.  So every instruction emitted by `end_for_loop` ahead of PopLoopFrame
+        # must push nothing on the paths where the current loop is a recursive invocation.
+        plf = vregs.get("PopLoopFrame", set())
+        rec_jump = any(c.name == "core::option::Option::take" and any("current_recursion_jump" in o.proj for o in flow.origins(ev, c.args[0]))
+                       for c in arms.calls_in(ev, plf))
+        efl = prog.fns.get(GEN + "::end_for_loop")
+        if rec_jump and efl is not None:
+            emitted = []
+            for bb, i, rv in arms.aggregates_in(efl, efl.reachable, INSTR):
+                if rv.get("variant") not in ("Jump", "PopLoopFrame"):
+                    emitted.append(rv.get("variant"))
+            ctx.count("C05.B6 instructions emitted at the loop end before PopLoopFrame", len(emitted))
+            for v in sorted(set(emitted)):
+                reg = vregs.get(v, set())
+                entry = arms.variant_targets(prog, ev, disp[0][0], INSTR).get(v)
+                removed = set()
+                for sb in sorted(reg):
+                    if ev.term(sb)["k"] != "switch":
+                        continue
+                    cd = flow.cond_of(ev, sb)
+                    if cd.kind == "call" and cd.call.name in ("core::option::Option::is_none", "core::option::Option::is_some") and any(
+                            "current_recursion_jump" in o.proj for o in flow.origins(ev, cd.call.args[0])):
+                        # drop the edges taken when the loop is NOT a recursive invocation
+                        none_true = cd.call.name.endswith("is_none")
+                        removed |= cfg.bool_edges(ev, sb, none_true != cd.neg)
+                reach = cfg.reach_from(ev, entry, removed_edges=removed) & reg if entry is not None else set()
+                pushes = [c for c in arms.calls_in(ev, reach) if c.name == "minijinja::vm::context::Stack::push"]
+                ctx.ob("C05.B6.loop-end-pushes-nothing-for-recursive-invocations", tag + v, not pushes,
+                       "%s is emitted at the end of every for loop ahead of PopLoopFrame and pushes an operand also when "
+                       "the loop is a recursive invocation; PopLoopFrame then jumps back to the `loop(..)` call site, "
+                       "where nothing consumes it: each recursive call leaks an operand and later operators read the "
+                       "wrong values" % v, ev.where(entry) if entry is not None else ev.loc)
+        elif efl is not None:
+            ctx.count("C05.B6 not applicable: PopLoopFrame has no computed jump")
+
         # ---- B3
         check_vm_pairs(ctx, prog, tag)
         # ---- B4
